@@ -69,6 +69,13 @@ fn dangling_of<S: Subject>(c: &S, res: &mut FaultRes, when: &str) -> bool {
                 if !a.structural.is_empty() {
                     res.inconsistent = true;
                 }
+                // an inconsistent structure is allowed after a panic (entries may leak, operations may fail), a
+                // cyclic chain is not: the next walk - an iterator, purge, drop - never ends or frees a node twice
+                for st in a.structural.iter().filter(|m| m.contains("appears twice") || m.contains("walk returned to")) {
+                    let msg = alloc::untracked(|| format!("{}: the chain is cyclic ({}) ({})", name, st, when));
+                    alloc::untracked(|| res.hazards.push(msg));
+                    any = true;
+                }
             }
             any
         }
@@ -82,7 +89,7 @@ fn dangling_of<S: Subject>(c: &S, res: &mut FaultRes, when: &str) -> bool {
 
 /// one execution: replay `hist` quietly, run `fop` with an optional injected fault, audit, run the
 /// optional follow-up (with an optional 2nd fault), drop.
-pub fn execute<S: Subject>(cfg: &Cfg, hist: &[Op], fop: FOp, inject: Option<(FK, u32)>, follow: Option<Op>, inject2: Option<(FK, u32)>) -> FaultRes {
+pub fn execute<S: Subject>(cfg: &Cfg, hist: &[Op], fop: FOp, inject: Option<(FK, u32)>, follow: Option<Op>, inject2: Option<(FK, u32)>, more: &[Op]) -> FaultRes {
     let mut res = FaultRes::default();
     let _ = take_cb_log();
     let _ = panics::take_last();
@@ -158,6 +165,28 @@ pub fn execute<S: Subject>(cfg: &Cfg, hist: &[Op], fop: FOp, inject: Option<(FK,
                 std::mem::forget(c.take());
             }
         }
+        for (i, f) in more.iter().enumerate() {
+            let cache = match c.as_mut() {
+                Some(c) => c,
+                None => break,
+            };
+            let mut out = Vec::new();
+            let r = catch_unwind(AssertUnwindSafe(|| {
+                let r = cache.apply(*f, &mut out);
+                dead_in(&r)
+            }));
+            match r {
+                Ok(true) => alloc::untracked(|| res.hazards.push(format!("follow-up #{} {:?} handed a dead key/value to the caller", i + 2, f))),
+                Ok(false) => {}
+                Err(_) => res.follow_panicked = true,
+            }
+            drop(out);
+            let when = alloc::untracked(|| format!("after follow-up #{} ({:?})", i + 2, f));
+            let dangling = dangling_of(cache, &mut res, &when);
+            if dangling {
+                std::mem::forget(c.take());
+            }
+        }
         if let Some(cache) = c.take() {
             if catch_unwind(AssertUnwindSafe(move || drop(cache))).is_err() {
                 res.drop_panicked = true;
@@ -176,15 +205,19 @@ pub fn execute<S: Subject>(cfg: &Cfg, hist: &[Op], fop: FOp, inject: Option<(FK,
 }
 
 pub trait FaultDriver: Sync + Send {
-    fn exec(&self, hist: &[Op], fop: FOp, inject: Option<(FK, u32)>, follow: Option<Op>, inject2: Option<(FK, u32)>) -> FaultRes;
+    fn exec(&self, hist: &[Op], fop: FOp, inject: Option<(FK, u32)>, follow: Option<Op>, inject2: Option<(FK, u32)>) -> FaultRes {
+        self.exec_more(hist, fop, inject, follow, inject2, &[])
+    }
+    /// `more`: further follow-up operations after the first one (no faults injected into them)
+    fn exec_more(&self, hist: &[Op], fop: FOp, inject: Option<(FK, u32)>, follow: Option<Op>, inject2: Option<(FK, u32)>, more: &[Op]) -> FaultRes;
 }
 struct FD<S> {
     cfg: Cfg,
     _p: std::marker::PhantomData<fn() -> S>,
 }
 impl<S: Subject> FaultDriver for FD<S> {
-    fn exec(&self, hist: &[Op], fop: FOp, inject: Option<(FK, u32)>, follow: Option<Op>, inject2: Option<(FK, u32)>) -> FaultRes {
-        execute::<S>(&self.cfg, hist, fop, inject, follow, inject2)
+    fn exec_more(&self, hist: &[Op], fop: FOp, inject: Option<(FK, u32)>, follow: Option<Op>, inject2: Option<(FK, u32)>, more: &[Op]) -> FaultRes {
+        execute::<S>(&self.cfg, hist, fop, inject, follow, inject2, more)
     }
 }
 
@@ -346,6 +379,8 @@ pub fn run(tier: Tier) -> EngineReport {
                                             "double_free"
                                         } else if hz.contains("not a live") {
                                             "dangling_node"
+                                        } else if hz.contains("chain is cyclic") {
+                                            "cyclic_chain"
                                         } else {
                                             "use_of_dead_object"
                                         };
@@ -405,10 +440,250 @@ pub fn run(tier: Tier) -> EngineReport {
             rep.samples.push(json!({"engine": "faults", "config": cfg.label(), "state_history": format!("{:?}", h), "example": "every op x every Hash/Eq/Clone/Drop/hasher/callback call index x every follow-up op"}));
         }
     }
+    for (cfg, len, cap) in deep_menu(tier) {
+        deep_pass(&cfg, len, cap, &mut rep, &mut details);
+    }
     run_conversions(&mut rep, &mut details);
     rep.capped = if rep.exhaustive { None } else { Some("state prefix cap hit in some configuration (see detail)".into()) };
     rep.detail = json!(details);
     rep
+}
+
+
+/// Deeper follow-up sequences: a hazard that needs the damaged structure to be used two or three more times
+/// (a node left linked but un-indexed by the panic is later mistaken for the LRU entry, a stale neighbour
+/// pointer is written through after the neighbour has gone). Every state of a tiny configuration, every
+/// operation, every fault point, every sequence of the lean follow-up alphabet of the given length.
+fn deep_pass(cfg: &Cfg, len: usize, max_states: usize, rep: &mut EngineReport, details: &mut Vec<Value>) {
+    let props: BTreeSet<&'static str> = BTreeSet::new();
+    let d = crate::driver::make_driver(cfg);
+    let lim = Limits { max_states: 3000, collect_histories: true, ..Default::default() };
+    let ex = explore(d.as_ref(), &props, &Wants::default(), &lim);
+    let hists: Vec<Vec<Op>> = ex.histories.iter().take(max_states).cloned().collect();
+    if hists.len() < ex.histories.len() || !ex.closed {
+        rep.exhaustive = false;
+    }
+    let fd = fault_driver(cfg);
+    let fo = fops(cfg);
+    let lean: Vec<Op> = {
+        let mut v: Vec<Op> = (0..cfg.keys).map(|k| Op::Put(k, 0)).collect();
+        v.extend([Op::Get(0), Op::Get(1), Op::Remove(0), Op::Remove(1), Op::Purge, Op::Iters]);
+        if cfg.kind == Kind::Raw {
+            v.push(Op::RemoveLru);
+        }
+        v
+    };
+    let mut seqs: Vec<Vec<Op>> = vec![vec![]];
+    for _ in 0..len {
+        seqs = seqs.into_iter().flat_map(|s| lean.iter().map(move |o| { let mut t = s.clone(); t.push(*o); t })).collect();
+    }
+    let stats: Vec<Stat> = hists
+        .par_iter()
+        .map(|h| {
+            let mut st = Stat::default();
+            for fop in fo.iter().filter(|f| **f != FOp::DropCache) {
+                let dry = fd.exec(h, *fop, None, None, None);
+                st.executions += 1;
+                for kind in fault::ALL {
+                    for i in 0..dry.counts[kind as usize] {
+                        st.points += 1;
+                        for sq in &seqs {
+                            let r = fd.exec_more(h, *fop, Some((kind, i)), Some(sq[0]), None, &sq[1..]);
+                            st.executions += 1;
+                            for hz in &r.hazards {
+                                let class = if hz.contains("double drop") {
+                                    "double_drop"
+                                } else if hz.contains("double free") || hz.contains("free of block") {
+                                    "double_free"
+                                } else if hz.contains("not a live") {
+                                    "dangling_node"
+                                } else if hz.contains("chain is cyclic") {
+                                    "cyclic_chain"
+                                } else if hz.contains("freed block") {
+                                    "write_after_free"
+                                } else {
+                                    "use_of_dead_object"
+                                };
+                                st.findings.push((
+                                    Finding::new(
+                                        "C18",
+                                        "no_hazard_after_user_panic",
+                                        format!("{:?}/{}/{:?}/later", cfg.kind, class, kind),
+                                        format!("{} — panic injected at {:?} call #{} during {:?} after {:?}, follow-ups {:?}", hz, kind, i, fop, h, sq),
+                                    ),
+                                    json!({"engine": "faults", "cfg": cfg, "history": h, "fop": fop, "inject": [kind, i], "follow": sq[0], "inject2": null, "more": &sq[1..]}),
+                                ));
+                            }
+                        }
+                    }
+                }
+            }
+            st
+        })
+        .collect();
+    let (mut exec, mut points) = (0u64, 0u64);
+    for s in stats {
+        exec += s.executions;
+        points += s.points;
+        for (f, c) in s.findings {
+            rep.violations.push(Extra { finding: f, case: c, count: 1 });
+        }
+    }
+    rep.states += hists.len() as u64;
+    rep.transitions += points;
+    rep.evaluations += exec;
+    details.push(json!({"config": cfg.label(), "pass": "deeper follow-up sequences", "states": hists.len(), "states_in_closure": ex.states, "operations_faulted": fo.len() - 1,
+        "fault_points": points, "follow_up_sequence_length": len, "follow_up_alphabet": lean.len(), "sequences_per_point": seqs.len(), "executions": exec}));
+}
+
+fn deep_menu(tier: Tier) -> Vec<(Cfg, usize, usize)> {
+    // (configuration, follow-up sequence length, state cap)
+    let mk = |kind: Kind, caps: &[usize], keys: u8| {
+        let mut c = Cfg::base(kind, caps, keys);
+        c.key_ty = KeyTy::Tracked;
+        c.hasher = HKind::SipA;
+        c.lean_ops = true;
+        c
+    };
+    let big = tier == Tier::Thorough;
+    let mut raw1 = mk(Kind::Raw, &[1], 2);
+    raw1.callback = 2;
+    let raw2 = mk(Kind::Raw, &[2], 3);
+    let mut q = mk(Kind::TwoQ, &[2], 3);
+    q.ratios = (0.5, 0.5);
+    let mut w = mk(Kind::Wtlfu, &[1, 1, 1], 3);
+    w.kh = KHKind::Spread;
+    let mut v = vec![
+        (raw1, 3, 100),
+        (raw2, if big { 3 } else { 2 }, if big { 100 } else { 30 }),
+        (mk(Kind::Slru, &[1, 2], 4), 2, if big { 100 } else { 40 }),
+        (q, 2, if big { 100 } else { 30 }),
+        (mk(Kind::Arc, &[1], 3), 2, if big { 100 } else { 30 }),
+        (w, 2, if big { 60 } else { 20 }),
+    ];
+    if big {
+        v.push((mk(Kind::Slru, &[2, 2], 4), 2, 60));
+        let mut q = mk(Kind::TwoQ, &[2], 3);
+        q.ratios = (0.5, 0.5);
+        v.push((q, 3, 40));
+        v.push((mk(Kind::Arc, &[1], 3), 3, 40));
+    }
+    v
+}
+
+
+/// C15 under unwinding: the callback is "never invoked for entries that remain resident". If the callback
+/// panics, the entry it was called with must already have left: every state of small callback configurations,
+/// every operation, every callback invocation made to panic; afterwards each announced entry is looked up.
+pub fn run_callback_consistency(tier: Tier) -> EngineReport {
+    let mut rep = EngineReport { name: "callback-unwind consistency (every state x operation x callback call made to panic)".into(), exhaustive: true, ..Default::default() };
+    let props: BTreeSet<&'static str> = BTreeSet::new();
+    let mut details = vec![];
+    let caps: &[(usize, u8)] = if tier == Tier::Thorough { &[(1, 2), (2, 3), (3, 4)] } else { &[(1, 2), (2, 3)] };
+    for cbk in [2u8, 1u8] {
+        for (cap, keys) in caps {
+            let mut cfg = Cfg::base(Kind::Raw, &[*cap], *keys);
+            cfg.key_ty = KeyTy::Tracked;
+            cfg.callback = cbk;
+            cfg.resize = vec![0, 1, *cap as u8 + 1];
+            let d = crate::driver::make_driver(&cfg);
+            let lim = Limits { max_states: 5000, collect_histories: true, ..Default::default() };
+            let ex = explore(d.as_ref(), &props, &Wants::default(), &lim);
+            if !ex.closed {
+                rep.exhaustive = false;
+            }
+            let ops = mutators(&cfg);
+            let results: Vec<(u64, u64, Vec<(Finding, Value)>)> = ex
+                .histories
+                .par_iter()
+                .map(|h| {
+                    let mut out = vec![];
+                    let (mut execs, mut points) = (0u64, 0u64);
+                    for op in &ops {
+                        let n = callback_run(&cfg, h, *op, None).0;
+                        execs += 1;
+                        for i in 0..n {
+                            points += 1;
+                            execs += 1;
+                            let (_, announced, still) = callback_run(&cfg, h, *op, Some(i));
+                            for e in still {
+                                out.push((
+                                    Finding::new(
+                                        "C15",
+                                        "announced_entries_have_left",
+                                        format!("Raw/{}", crate::oracle::op_name(op)),
+                                        format!("the callback was invoked with {:?} (and unwound, call #{}) during {:?} after {:?}, but that entry is still resident with that value; announced in this operation: {:?}", e, i, op, h, announced),
+                                    ),
+                                    json!({"engine": "callback-unwind", "cfg": cfg, "history": h, "op": op, "call": i}),
+                                ));
+                            }
+                        }
+                    }
+                    (execs, points, out)
+                })
+                .collect();
+            let (mut execs, mut points) = (0u64, 0u64);
+            for (e, p, fs) in results {
+                execs += e;
+                points += p;
+                for (f, c) in fs {
+                    rep.violations.push(Extra { finding: f, case: c, count: 1 });
+                }
+            }
+            rep.states += ex.states as u64;
+            rep.transitions += points;
+            rep.evaluations += execs;
+            rep.distinct_nontrivial += points;
+            details.push(json!({"config": cfg.label(), "states": ex.states, "operations": ops.len(), "callback_invocations_made_to_panic": points, "executions": execs}));
+        }
+    }
+    rep.detail = json!(details);
+    rep
+}
+
+/// (number of callback invocations, entries announced, announced entries still resident with the announced value)
+fn callback_run(cfg: &Cfg, hist: &[Op], op: Op, inject: Option<u32>) -> (u32, Vec<crate::ops::Ent>, Vec<crate::ops::Ent>) {
+    let _ = take_cb_log();
+    let _ = panics::take_last();
+    track::begin();
+    let mut announced = vec![];
+    let mut still = vec![];
+    let mut calls = 0;
+    let built = catch_unwind(AssertUnwindSafe(|| {
+        let mut c = RawSubj::<TK, TV>::build(cfg)?;
+        let mut out = Vec::new();
+        for h in hist {
+            c.apply(*h, &mut out);
+        }
+        Ok::<_, String>(c)
+    }));
+    if let Ok(Ok(mut c)) = built {
+        let _ = take_cb_log();
+        let mut out = Vec::new();
+        fault::start(inject.map(|i| (FK::Callback, i)));
+        let r = catch_unwind(AssertUnwindSafe(|| {
+            c.apply(op, &mut out);
+        }));
+        let (counts, fired) = fault::stop();
+        calls = counts[FK::Callback as usize];
+        announced = take_cb_log();
+        if r.is_err() && fired {
+            let _ = panics::take_last();
+            for e in &announced {
+                let mut o2 = Vec::new();
+                if let Ok(Ret::V(Some(vv))) = catch_unwind(AssertUnwindSafe(|| c.apply(Op::Peek(e.0), &mut o2))) {
+                    if vv == e.1 {
+                        still.push(*e);
+                    }
+                }
+            }
+        }
+        drop(out);
+        let _ = catch_unwind(AssertUnwindSafe(move || drop(c)));
+    }
+    let _ = track::take_errors();
+    let _ = take_cb_log();
+    (calls, announced, still)
 }
 
 /// Conversions into a RawLRU (`From<[(K,V);N]>`, `From<Vec>`, `From<&[..]>`, `From<&mut [..]>`, `From<VecDeque>`,
@@ -517,8 +792,9 @@ pub fn replay_case(case: &Value) -> Vec<Finding> {
     let inject: Option<(FK, u32)> = serde_json::from_value(case["inject"].clone()).ok();
     let follow: Option<Op> = serde_json::from_value(case["follow"].clone()).unwrap_or(None);
     let inject2: Option<(FK, u32)> = serde_json::from_value(case["inject2"].clone()).unwrap_or(None);
+    let more: Vec<Op> = serde_json::from_value(case["more"].clone()).unwrap_or_default();
     let fd = fault_driver(&cfg);
-    let r = fd.exec(&hist, fop, inject, follow, inject2);
+    let r = fd.exec_more(&hist, fop, inject, follow, inject2, &more);
     println!("fault fired: {}, faulted op unwound: {}, follow-up panicked: {}, drop panicked: {}, leaked blocks: {}", r.fired, r.op_panicked, r.follow_panicked, r.drop_panicked, r.leaked_blocks);
     r.hazards.iter().map(|h| Finding::new("C18", "no_hazard_after_user_panic", format!("{:?}", cfg.kind), h.clone())).collect()
 }
